@@ -13,30 +13,25 @@ theorem C13_handler_exact (cfg : ECfg) (hq : cfg.tc.q.sharedFallbackVar = false)
     (h : onErrorHandle cfg key (1 + rest.length) top.length ex s' = some s2) :
     s2.streams = top :: rest ∧ s2.handled = s'.handled + 1 ∧ s2.x = s'.x := by
   unfold onErrorHandle at h
-  split at h
-  · simp at h
-  · rename_i pos len htok
-    simp only [hq] at h
-    simp only [Option.some.injEq] at h
-    subst h
-    refine ⟨?_, rfl, rfl⟩
-    simp only [hshape, List.length_append, List.length_cons]
-    have : extra.length + (rest.length + 1) - (1 + rest.length) = extra.length := by omega
-    rw [this]
-    simp
+  simp only [hq] at h
+  simp only [Option.some.injEq] at h
+  subst h
+  refine ⟨?_, rfl, rfl⟩
+  simp only [hshape, List.length_append, List.length_cons]
+  have : extra.length + (rest.length + 1) - (1 + rest.length) = extra.length := by omega
+  rw [this]
+  simp
 
-/-- the fallback can read `error` -/
+/-- the fallback can read `error`: the class and value of the exception, and the position of the expression that was
+being evaluated — unknown (`none`) exactly when the failure came out of an internal macro or a slot filler -/
 theorem C13_error_bound (cfg : ECfg) (key depth saved : Nat) (ex : Exc) (s' s2 : RState)
     (h : onErrorHandle cfg key depth saved ex s' = some s2) :
-    ∃ line col, s2.env.get (lit "error") = some (Val.errorInfo ex.cls ex.msg line col) := by
+    ∃ pos, s2.env.get (lit "error") = some (Val.errorInfo ex.cls ex.msg pos) ∧
+      (pos.isSome = s'.x.token.isSome) := by
   unfold onErrorHandle at h
-  split at h
-  · simp at h
-  · rename_i pos len htok
-    simp only [Option.some.injEq] at h
-    subst h
-    exact ⟨(Tok.location cfg.src { str := [], pos := pos }).1, (Tok.location cfg.src { str := [], pos := pos }).2,
-      by simp [Env.get, lookupAssoc]⟩
+  simp only [Option.some.injEq] at h
+  subst h
+  exact ⟨s'.x.token.map (fun t => Tok.location cfg.src { str := [], pos := t.1 }), by simp [Env.get, lookupAssoc], by simp⟩
 
 /-- with the shared variable (the code before the fix) the handler can cut at the wrong place:
 concrete witness — an inner handler's saved length is used by the outer one -/
